@@ -860,6 +860,10 @@ class IsoHybrid:
         padding = 0
         if frac > 0:
             padding = cylsize - frac
+        if self.efi and padding < 33 * 512:
+            # The backup GPT (32 sectors of partition entries and a header
+            # sector) is stored in the padding, so it has to fit in there.
+            padding += ((33 * 512 - padding + cylsize - 1) // cylsize) * cylsize
         cc = min((iso_size + padding) // cylsize, 1024)
 
         return (cc, padding)
